@@ -1,6 +1,7 @@
 """C08 — velocity/displacement are cumulative trapezoid integrals; peaks are max abs."""
 from fractions import Fraction
 
+import math
 import numpy as np
 
 import gen
@@ -144,7 +145,7 @@ def spec_oracles(ctx, a, dt, trap, val, exact):
     ctx.oracle(f'{name} increments of displacement', ok_d, inputs, detail={'first_bad': bad})
 
 
-def object_history(ctx, a, dt):
+def object_history(ctx, a, dt, forced_ops=None):
     """object-level access after a history on the same AccSignal: velocity/displacement/peaks must always be those of the CURRENT
     record with the requested integration rule (reads before a mutation, explicit trap=False after a trap=True read, ...)."""
     import eqsig
@@ -154,8 +155,8 @@ def object_history(ctx, a, dt):
     cur = a.copy()
     trap = True
     hist = []
-    for _ in range(rng.randint(2, 5)):
-        op = rng.choice(['read', 'peaks', 'add_constant', 'reset_values', 'gen(trap=False)', 'gen(trap=True)', 'scale',
+    for _step in range(rng.randint(2, 5) if forced_ops is None else len(forced_ops)):
+        op = forced_ops[_step] if forced_ops is not None else rng.choice(['read', 'peaks', 'add_constant', 'reset_values', 'gen(trap=False)', 'gen(trap=True)', 'scale',
                          'set_zero_residual_velocity', 'set_zero_residual_displacement', 'inplace-edit+reset_values', 'rebase_displacement',
                          'add_signal', 'add_signal', 'add_series'])
         if op in ('add_signal', 'add_series'):
@@ -549,3 +550,26 @@ def run(ctx):
 
 # evidence: how the model is tied to the source on every run (as built, supersedes the value above)
 TIE = 'translator (both integration rules and the alias -> Gen/Displ, calc_peak -> Gen/ImSimple; Props/C08Gen, C09Sem) + correspondence (exact on dyadic-safe inputs) + object histories'
+
+
+
+# ---- round 8 (regression of the archive): baseline corrections that are SMALL compared with the record (as for real records: the second
+# difference of a smooth pulse returns to rest, so the residual displacement is a rounding-level / tiny quantity), after either integration rule
+# (seed C08-r8-1: a "small correction" shortcut that shifts the cached series instead of re-integrating)
+_run_main_small = run
+
+
+def run(ctx):
+    _run_main_small(ctx)
+    rng = ctx.rng
+    for it in range(6 if ctx.tier == 'quick' else 40):
+        n = rng.choice([64, 120, 257])
+        dt = rng.choice([0.01, 0.02, 2.0 ** -6])
+        t = np.arange(n + 2) / (n + 1.0)
+        bump = np.sin(math.pi * t) ** 4 * rng.choice([1.0, 3.0]) + 0.05 * np.sin(9 * math.pi * t) ** 2
+        a = np.diff(bump, 2) / dt ** 2 * 1e-3 + rng.choice([0.0, 1e-4, -3e-5])
+        for ops in (['gen(trap=False)', 'rebase_displacement', 'read', 'peaks'], ['read', 'rebase_displacement', 'peaks'],
+                    ['gen(trap=False)', 'set_zero_residual_displacement', 'read'], ['gen(trap=False)', 'set_zero_residual_velocity', 'peaks', 'read']):
+            ctx.hist('small baseline correction/' + ops[1])
+            object_history(ctx, a, dt, forced_ops=ops)
+    ctx.flush()
